@@ -83,6 +83,7 @@ type checkOpts struct {
 	property string
 	tier     string
 	repo     string
+	only    string
 	funcSub  string
 	verbose  bool
 	keep     bool
@@ -111,6 +112,7 @@ func cmdCheck(args []string) int {
 	fs.StringVar(&o.funcSub, "func", "", "only functions whose name contains this")
 	fs.BoolVar(&o.verbose, "v", false, "verbose")
 	fs.BoolVar(&o.keep, "keep", false, "keep SMT files")
+	fs.StringVar(&o.only, "only", "", "debugging: solve only obligations whose name contains this (implies -no-evidence)")
 	var mutate string
 	fs.StringVar(&mutate, "mutate", "", "in-memory edit relpath::old::new (testing the checker; never written to /repo)")
 	fs.BoolVar(&o.noEvidence, "no-evidence", false, "do not write evidence / replay files")
@@ -127,6 +129,9 @@ func cmdCheck(args []string) int {
 		o.overlay = ov
 		o.noEvidence = true
 		o.replayAlways = true
+	}
+	if o.only != "" {
+		o.noEvidence = true
 	}
 	o.seed, _ = strconv.Atoi(envOr("VERIF_SEED", "0"))
 	out := runCheck(o)
@@ -239,6 +244,9 @@ func runCheck(o checkOpts) checkOutcome {
 	for _, r := range results {
 		var keep []*Oblig
 		for _, ob := range r.obligs {
+			if o.only != "" && !strings.Contains(ob.name, o.only) {
+				continue // debugging aid: -only never writes evidence
+			}
 			if (hasProp(ob.props, o.property) || ob.kind == "cover") && kindServes(o.property, ob) {
 				keep = append(keep, ob)
 			}
